@@ -149,7 +149,7 @@ func H_C18_keys_unique_seq(s any) {
 	steps := 2 + vpTier()
 	for i := 0; i < steps; i++ {
 		k := int32(vpUint8())
-		op := vpChoose(3)
+		op := vpChoose(4)
 		src := newMemStore()
 		src.quiet = true
 		row := src.root.ensureList(src, "l").addRow(src, c18Key(k))
@@ -169,9 +169,26 @@ func H_C18_keys_unique_seq(s any) {
 			if sel != nil {
 				vpAssert(sel.Delete() == nil, "delete succeeds")
 			}
+		case 3: // a different key leaf written through an addressed entry (hunt C18 finding 5): refused, or the list stays consistent
+			k2 := int32(vpUint8())
+			sel, err := b.Root().Find("l=" + val.Int32(k2).String())
+			vpAssert(err == nil, "find by key does not fail")
+			if sel != nil {
+				sel.UpsertFrom(&memNode{s: src, t: row})
+			}
 		}
 		l := dst.root.lists["l"]
 		if l == nil {
+			continue
+		}
+		if op == 3 {
+			for x := 0; x < len(l.rows); x++ {
+				for y := x + 1; y < len(l.rows); y++ {
+					vpAssert(!val.EqualVals(l.rows[x].key, l.rows[y].key), "no two entries with equal keys")
+				}
+				kv := l.rows[x].t.leaves["k"]
+				vpAssertK("C18-key-leaf-changed-through-entry", true, kv != nil && val.Equal(kv, l.rows[x].key[0]), "each entry sits under the key its key leaf holds (also after a key leaf was written through the entry)")
+			}
 			continue
 		}
 		for x := 0; x < len(l.rows); x++ {
